@@ -1,13 +1,15 @@
-"""Import a verified seeded change: tools/import_seed.py <pid> <k> <result file> [name]"""
+"""Import a verified seeded change: tools/import_seed.py <pid> <k> <result file> [src_root=/tmp/seed_out] [new_k]"""
 import json, os, re, shutil, sys
 pid, k, res = sys.argv[1], sys.argv[2], sys.argv[3]
-src = f"/tmp/seed_out/{pid}/{k}"
+root = sys.argv[4] if len(sys.argv) > 4 else "/tmp/seed_out"
+src = f"{root}/{pid}/{k}"
+nk = sys.argv[5] if len(sys.argv) > 5 else k
 txt = open(res).read()
 m = re.search(r"demo_with_patch_rc=(\S+) demo_without_patch_rc=(\S+) suite_rc=(\S+) suite='([^']*)'", txt)
 det = re.search(r"DETECTED_BY:(.*)", txt)
 assert m, res
 ok = m.group(1) != "0" and m.group(2) == "0" and m.group(3) == "0"
-name = f"{pid}-{k}"
+name = f"{pid}-{nk}"
 dst = f"/verif/seeded/{name}"
 os.makedirs(dst, exist_ok=True)
 shutil.copy(f"{src}/patch.diff", f"{dst}/patch.diff")
